@@ -514,6 +514,16 @@ func (c *ChannelArbitrator) progressStateMachineAfterRestart(bestHeight int32,
 		case StateBroadcastCommit:
 			fallthrough
 		case StateCommitmentBroadcasted:
+			fallthrough
+
+		// If we stopped after persisting StateContractClosed but before
+		// the contract resolvers were created and the next state was
+		// persisted, the StateContractClosed step runs again. It must
+		// run with the close trigger it ran with originally: with a
+		// plain chain trigger no chain actions are produced for HTLCs
+		// that aren't close to their expiry at the closing height, so
+		// no resolvers would be created for them.
+		case StateContractClosed:
 			switch c.cfg.CloseType {
 
 			case channeldb.CooperativeClose:
